@@ -268,7 +268,9 @@ pub fn m_replay_number_calc() {
     let it = r.expect("number op number is computed");
     assert!(it.type_name() == "NUMBER");
     let want = arith(k, x, y);
-    assert!(close(it.get_underlying_number(), want, x.abs() + y.abs() + want.abs()));
+    // plain numbers: the result IS the double-precision operation (C02), not merely close to it
+    let got = it.get_underlying_number();
+    assert!(got == want || (got.is_nan() && want.is_nan()) || (k == 1 && !want.is_finite() && got == 0.0));
 }
 
 /// number|money (+,-) percent natively: (is_money, add, x, p)
